@@ -1,10 +1,21 @@
 //@unit sma
 //@include head.rs
 
+//@export-begin
 //@extract src/methods/sma.rs struct:SMA
 //@end
 
 impl SMA {
+//@extract src/methods/sma.rs impl[SMA]::get_window
+	ensures r == &self.window,
+//@end
+//@extract src/methods/sma.rs impl[SMA]::get_divider
+	ensures r == self.divider,
+//@end
+//@extract src/methods/sma.rs impl[Peekable<<Self as Method>::Output> for SMA]::peek pub
+//@sig pub fn peek(&self) -> (r: ValueType)
+	ensures r == self.value,
+//@end
 	pub open spec fn n(&self) -> real { self.window.cap() as real }
 	// documented formula: the arithmetic mean of the last `length` inputs
 	pub open spec fn def(view: Seq<R>) -> real { sum(view) / (view.len() as real) }
@@ -64,6 +75,8 @@ impl Method for SMA {
 	}
 //@end
 }
+
+//@export-end
 
 // C08: the construction value acts as a constant prehistory (one inductive step over the contracts)
 pub proof fn sma_const_step(pre: SMA, v: R, post: SMA, out: R)
